@@ -145,10 +145,14 @@ def r12_2(ctx):
     if len(hs) == 1:
         h = hs[0]
         fields = set()
-        for bid, idx, pl, how in h.places():
-            for pr in pl['proj']:
-                if isinstance(pr, dict) and pr.get('of') in ('raw::build::BuilderNode', 'raw::Transition'):
-                    fields.add((pr['of'].rsplit('::', 1)[-1], pr['name']))
+        # the bucket function and the local helpers / closures it is made of
+        cg = CallGraph(lib)
+        members = [lib.fns[q] for q in sorted(cg.reachable([h.path])) if q in lib.fns and q.startswith('raw::registry::')]
+        for g in members:
+            for bid, idx, pl, how in g.places():
+                for pr in pl['proj']:
+                    if isinstance(pr, dict) and pr.get('of') in ('raw::build::BuilderNode', 'raw::Transition'):
+                        fields.add((pr['of'].rsplit('::', 1)[-1], pr['name']))
         want = {('BuilderNode', 'is_final'), ('BuilderNode', 'final_output'), ('BuilderNode', 'trans'), ('Transition', 'inp'), ('Transition', 'out'), ('Transition', 'addr')}
         ctx.check(R, fields == want, 'hash-fields', 'the bucket function must read exactly the fields equality compares (missing %s, extra %s): otherwise equal nodes land in different rows or rows degenerate' % (sorted(want - fields), sorted(fields - want)), fn=h)
     else:
@@ -220,7 +224,22 @@ def r12_3_6(ctx, A):
         for p in explore(e, max_visits=1):
             if p.end != 'return':
                 continue
-            sl = [x for x in walk(p.ret()) if (is_call(x, 'IndexMut<I>>::index_mut') or is_call(x, 'IndexMut<I> for [T]>::index_mut')) and x[2][1][0] == 'agg' and x[2][1][1].endswith('ops::Range')]
+            rvx = p.ret()
+            if not [x for x in walk(rvx) if x[0] == 'agg' and x[1].endswith('ops::Range')]:
+                # the range may be computed by a local single-path helper (row_range(bucket)): substitute it once
+                from absint import Prover
+                from sym import map_children, subst, simplify_proj
+                pv = Prover(lib)
+
+                def once(x):
+                    x = map_children(x, once)
+                    if x[0] == 'call' and isinstance(x[1], str) and x[1] in lib.fns and x[1] != hs[0].path and x[1].startswith('raw::registry::') and lib.fns[x[1]].local_ty(0) != 'usize':
+                        t = pv.inline_template(x[1])
+                        if t is not None:
+                            return simplify_proj(subst(t, {i + 1: a for i, a in enumerate(x[2])}))
+                    return x
+                rvx = once(rvx)
+            sl = [x for x in walk(rvx) if (is_call(x, 'IndexMut<I>>::index_mut') or is_call(x, 'IndexMut<I> for [T]>::index_mut')) and x[2][1][0] == 'agg' and x[2][1][1].endswith('ops::Range')]
             if not sl:
                 continue
             rg = dict(sl[0][2][1][2])
@@ -253,7 +272,22 @@ def r12_5(ctx):
                     v = p.sym.loc_value_at((il[0],), (len(p.blocks) - 2, 'T'))
                     g = [d for d in p.decisions if d[2][0] == 'bin' and d[2][1] == 'Gt' and d[2][3] == ('const', 0)]
                     prom_ok = a[0] == 'bin' and a[1] == 'Sub' and a[3] == ('const', 1) and a[2] == b and b[0] == 'havoc' and v == ('bin', 'Sub', b, ('const', 1)) and bool(g) and g[-1][3] == 1
-        ctx.check(R, prom_ok, 'promote', 'promote(i) must rotate cell i to the front by adjacent swaps', fn=pr)
+        if not prom_ok:
+            # one-call form: cells[..=i].rotate_right(1)  (or cells[..i + 1])
+            for p in explore(pr, max_visits=1, havoc=True):
+                if p.end != 'return':
+                    continue
+                rot = [c for c in path_calls(p) if isinstance(c[2], str) and c[2].endswith('::rotate_right')]
+                if len(rot) == 1 and strip(rot[0][3][1]) == ('const', 1):
+                    recv = rot[0][3][0]
+                    for x in walk(recv):
+                        if x[0] == 'agg' and x[1].endswith('RangeToInclusive') and strip(dict(x[2]).get('end', ('?',)))[0] == 'param':
+                            prom_ok = True
+                        if x[0] == 'agg' and x[1].endswith('ops::RangeTo'):
+                            e = strip(dict(x[2]).get('end', ('?',)))
+                            if e[0] == 'bin' and e[1] == 'Add' and strip(e[2])[0] == 'param' and e[3] == ('const', 1):
+                                prom_ok = True
+        ctx.check(R, prom_ok, 'promote', 'promote(i) must rotate cell i to the front (adjacent swaps down to 0, or cells[..=i].rotate_right(1))', fn=pr)
     n = 0
     for p in explore(f, max_visits=1, havoc=True):
         if p.end != 'return':
@@ -287,6 +321,24 @@ def r12_5(ctx):
                 a, b = key(args[1]), key(args[2])
                 ia, ib = get(a), get(b)
                 ident[a], ident[b] = ib, ia
+            elif isinstance(callee, str) and (callee.endswith('::rotate_left') or callee.endswith('::rotate_right')):
+                # whole-slice rotation: needs the slice length on this path
+                n_known = None
+                for d in p.decisions:
+                    e = d[2]
+                    if e[0] == 'bin' and e[1] == 'Eq' and d[3] == 1 and strip(e[3])[0] == 'const' and any(is_call(x, '::len') for x in walk(e[2])):
+                        n_known = strip(e[3])[1]
+                kk = strip(args[1])
+                whole = not any(x[0] == 'agg' and 'ops::Range' in x[1] for x in walk(args[0]))
+                if n_known is None or kk[0] != 'const' or not whole:
+                    ident = {'_unknown': True}
+                    continue
+                r = kk[1] % n_known
+                if callee.endswith('::rotate_right'):
+                    r = (n_known - r) % n_known
+                old = {i: get(i) for i in range(n_known)}
+                for i in range(n_known):
+                    ident[i] = old[(i + r) % n_known]
             elif pr is not None and callee == pr.path:
                 i = key(args[1])
                 moved = get(i)
@@ -312,6 +364,9 @@ def r12_5(ctx):
                             if ixs:
                                 pos = key(ixs[-1])
         handed = get(pos) if pos is not None else None
+        if ident.get('_unknown'):
+            ctx.undecided(R, 'refreshed-is-returned', 'cells are permuted by a rotation whose extent is not known on the path', fn=f)
+            continue
         ok = refreshed is not None and handed == refreshed
         ctx.check(R, ok, 'refreshed-is-returned', 'the cell overwritten with the new node (%s) is not the cell handed back for its address (%s): the address would be recorded beside another node and a later hit would link to the wrong sub-automaton' % (refreshed, handed), fn=f)
     if n == 0:
